@@ -1530,6 +1530,46 @@ Proof. constructor; [|constructor]. intros m [Hm|[]] e He. subst m. contradictio
 (* plan (row 0, executing) defines P (1). P runs, defines S (2, gpu:1) and T (3, gpu:1); S runs.
    P ends asking to be deferred and is dispatched again; its rerun detaches S and T and declares
    S again without resources (full recycle of the executing S) and T with gpu:1. T is dispatched. *)
+(* the verdict of a hash check: ECheckDone is late_verdict on a CHECKING row *)
+Lemma checkdone_is_verdict : forall keep rej s i c x, nth_error (db s) i = Some x -> st x = Checking ->
+  step_gen keep rej s (ECheckDone i c) = Some (late_verdict s i c).
+Proof.
+  intros keep rej s i c x En Hs. unfold step_gen. rewrite En, Hs.
+  change (sstate_eqb Checking Checking) with true. cbv iota.
+  unfold late_verdict, verdict_db. destruct c; reflexivity.
+Qed.
+
+(* D21, fourth face: S (2) has a stored hash and its hash check is under way when the deferred P (1) runs again
+   and declares S with another output (partial recycle: the row is reset to PENDING, the hash stays). S is checked
+   again (second job), the first job's verdict "inputs changed" drops the hash, S is dispatched and its command
+   executes holding the gpu; then the verdict of the second job arrives at the RUNNING row and resets it to PENDING:
+   S is dispatched a second time while its first command still executes. *)
+Definition late_h1 : list event :=
+  [ EDefine 0 1 0 [] need_DEFAULT false; meta_all; EDispatch 1; EReset 1;
+    EDefine 1 2 0 [(1%N, 1%N)] need_DEFAULT false; meta_all; EDispatch 2; EReset 2; EComplete 2 0 OSucc;
+    EMarkPending 2; meta_all; EDispatch 2;
+    EComplete 1 0 ODefer; meta_all; EDispatch 1; EReset 1;
+    EDefine 1 2 1 [(1%N, 1%N)] need_DEFAULT false; meta_all; EDispatch 2;
+    ECheckDone 2 CMismatch; meta_all; EDispatch 2; EReset 2 ].
+Definition late_h2 : list event := [ meta_all; EDispatch 2 ].
+
+Theorem late_verdict_refuted :
+  Inv sys0 /\
+  (exists x, nth_error (db (run_gen false false sys0 late_h1)) 2 = Some x /\ st x = Running /\ length (cmds x) = 1) /\
+  (availz (avail sys0) 1 <
+   cmd_used 1 (db (run_gen false false (late_verdict (run_gen false false sys0 late_h1) 2 CMismatch) late_h2)))%N.
+Proof.
+  split; [exact sys0_inv|]. split.
+  - vm_compute. eexists. split; [reflexivity|]. split; reflexivity.
+  - vm_compute. reflexivity.
+Qed.
+
+(* harmless under either repair: the re-declaration leaves the CHECKING row alone (or is refused), the first
+   verdict is the only one, and the second dispatch never happens *)
+Theorem late_verdict_harmless_when_repaired : forall keep rej, keep || rej = true ->
+  (cmd_used 1 (db (run_gen keep rej sys0 (late_h1 ++ late_h2))) <= 1)%N.
+Proof. intros [|] [|] H; try discriminate H; vm_compute; intro E; discriminate E. Qed.
+
 (* quiet histories are calm *)
 Lemma quiet_calm_event : forall s e, quiet_event s e -> calm_event s e.
 Proof.
